@@ -216,3 +216,119 @@ func WalkSections(payload []byte) (secs []WalkedSection, complete bool) {
 	}
 	return secs, true
 }
+
+// SectionHeaderFields are the generic header fields read back from an encoded long-syntax section.
+type SectionHeaderFields struct {
+	TableID     uint8
+	Syntax      bool
+	Private     bool
+	Length      int
+	Ext         uint16
+	Version     uint8
+	CurrentNext bool
+	Number      uint8
+	Last        uint8
+}
+
+// ReadSectionHeader reads the generic fields of a long-syntax section (at least 8 bytes).
+func ReadSectionHeader(sec []byte) (h SectionHeaderFields, ok bool) {
+	if len(sec) < 8 {
+		return h, false
+	}
+	r := NewBitReader(sec)
+	h.TableID = uint8(r.U(8))
+	h.Syntax = r.B()
+	h.Private = r.B()
+	r.U(2)
+	h.Length = int(r.U(12))
+	h.Ext = uint16(r.U(16))
+	r.U(2)
+	h.Version = uint8(r.U(5))
+	h.CurrentNext = r.B()
+	h.Number = uint8(r.U(8))
+	h.Last = uint8(r.U(8))
+	return h, !r.Err
+}
+
+// PMTEntry is one elementary stream entry of a decoded PMT.
+type PMTEntry struct {
+	Type uint8
+	PID  uint16
+	Desc []byte // raw descriptor loop body
+}
+
+// DecodePMT reads PCR PID, program info and stream entries of an encoded PMT section (CRC not checked here).
+func DecodePMT(sec []byte) (pcr uint16, progInfo []byte, es []PMTEntry, ok bool) {
+	if len(sec) < 16 || sec[0] != 0x02 {
+		return 0, nil, nil, false
+	}
+	end := 3 + (int(sec[1]&0xf)<<8 | int(sec[2])) - 4
+	if end > len(sec)-4 || end < 12 {
+		return 0, nil, nil, false
+	}
+	pcr = uint16(sec[8]&0x1f)<<8 | uint16(sec[9])
+	pil := int(sec[10]&0xf)<<8 | int(sec[11])
+	pos := 12
+	if pos+pil > end {
+		return 0, nil, nil, false
+	}
+	progInfo = sec[pos : pos+pil]
+	pos += pil
+	for pos < end {
+		if pos+5 > end {
+			return 0, nil, nil, false
+		}
+		e := PMTEntry{Type: sec[pos], PID: uint16(sec[pos+1]&0x1f)<<8 | uint16(sec[pos+2])}
+		l := int(sec[pos+3]&0xf)<<8 | int(sec[pos+4])
+		pos += 5
+		if pos+l > end {
+			return 0, nil, nil, false
+		}
+		e.Desc = sec[pos : pos+l]
+		pos += l
+		es = append(es, e)
+	}
+	return pcr, progInfo, es, true
+}
+
+// DecodePAT reads the (program_number, PID) pairs of an encoded PAT section.
+func DecodePAT(sec []byte) (progs [][2]uint16, ok bool) {
+	if len(sec) < 12 || sec[0] != 0x00 {
+		return nil, false
+	}
+	end := 3 + (int(sec[1]&0xf)<<8 | int(sec[2])) - 4
+	if end > len(sec)-4 || (end-8)%4 != 0 {
+		return nil, false
+	}
+	for pos := 8; pos < end; pos += 4 {
+		progs = append(progs, [2]uint16{uint16(sec[pos])<<8 | uint16(sec[pos+1]), uint16(sec[pos+2]&0x1f)<<8 | uint16(sec[pos+3])})
+	}
+	return progs, true
+}
+
+// TablePacketSection extracts the single section of a one-packet PSI unit payload (pointer_field 0 expected by the
+// caller) and checks that the rest of the payload is 0xFF stuffing. It returns the section bytes.
+func TablePacketSection(payload []byte) ([]byte, error) {
+	if len(payload) < 4 {
+		return nil, fmt.Errorf("payload of %d bytes", len(payload))
+	}
+	ptr := int(payload[0])
+	start := 1 + ptr
+	if start+3 > len(payload) {
+		return nil, fmt.Errorf("pointer_field %d leaves no room for a section header", ptr)
+	}
+	l := int(payload[start+1]&0xf)<<8 | int(payload[start+2])
+	end := start + 3 + l
+	if end > len(payload) {
+		return nil, fmt.Errorf("section_length %d runs past the packet (section starts at %d, payload %d bytes)", l, start, len(payload))
+	}
+	for i := end; i < len(payload); i++ {
+		if payload[i] != 0xff {
+			return nil, fmt.Errorf("byte %#02x after the section at payload offset %d (section_length %d): the bytes written after section_length do not match it", payload[i], i, l)
+		}
+	}
+	if l < 4 || CRC32MPEG2(payload[start:end]) != 0 {
+		return nil, fmt.Errorf("CRC_32 of the section does not verify (section_length %d)", l)
+	}
+	return payload[start:end], nil
+}
